@@ -103,8 +103,35 @@ func (sc *Scenario) testMethod() *ScMethod {
 	return sc.Methods[0]
 }
 
+// reproScript renders a self-contained shell script that recreates the scenario's module and runs the real CLI on it.
+func (sc *Scenario) reproScript() string {
+	var b strings.Builder
+	b.WriteString("#!/bin/bash\n# stand-alone reproduction: recreates the input module, runs goverter (GOVERTER=path, default /verif/bin/goverter) and builds the result\n")
+	b.WriteString("export GOFLAGS=-mod=mod GOPROXY=off GOSUMDB=off GOTOOLCHAIN=local\nd=$(mktemp -d); trap 'rm -rf \"$d\"' EXIT; cd \"$d\"\n")
+	mod, err := scenarioFiles([]*Scenario{sc})
+	if err != nil {
+		return ""
+	}
+	var names []string
+	for n := range mod {
+		names = append(names, n)
+	}
+	sort.Strings(names)
+	for _, n := range names {
+		fmt.Fprintf(&b, "mkdir -p \"$(dirname %s)\"\ncat > %s <<'VERIF_EOF'\n%s\nVERIF_EOF\n", n, n, strings.TrimRight(mod[n], "\n"))
+	}
+	args := "gen"
+	for _, g := range sc.Global {
+		args += " -g '" + g + "'"
+	}
+	fmt.Fprintf(&b, "\"${GOVERTER:-/verif/bin/goverter}\" %s ./conv; echo \"goverter-exit=$?\"\n", args)
+	b.WriteString("find . -name '*.go' -newer go.mod -path '*gen*' | head -5\ngo build ./... ; echo \"build-exit=$?\"\n")
+	return b.String()
+}
+
 func (sc *Scenario) describe() map[string]any {
 	d := map[string]any{"kind": "scenario", "id": sc.ID, "interface": sc.ifaceSource()}
+	d["repro_sh"] = sc.reproScript()
 	if len(sc.Global) > 0 {
 		d["cli_global"] = sc.Global
 	}
@@ -122,12 +149,25 @@ func (sc *Scenario) describe() map[string]any {
 	return d
 }
 
+// scenarioFiles computes the files of a module holding the given scenarios.
+func scenarioFiles(scs []*Scenario) (map[string]string, error) {
+	mod := &emit.Module{Files: map[string]string{}}
+	mod.Add("go.mod", "module "+space.ModulePath+"\n\ngo 1.22\n")
+	fillScenarioModule(mod, scs)
+	return mod.Files, nil
+}
+
 // scenarioModule writes a module with the given scenarios (all declarations in packages in/out/conv).
 func scenarioModule(prefix string, scs []*Scenario) (*emit.Module, error) {
 	mod, err := emit.NewModule(prefix)
 	if err != nil {
 		return nil, err
 	}
+	fillScenarioModule(mod, scs)
+	return mod, mod.Write()
+}
+
+func fillScenarioModule(mod *emit.Module, scs []*Scenario) {
 	u := &space.Universe{Decls: map[string]*space.Decl{}}
 	std := space.StdUniverse()
 	for k, d := range std.Decls {
@@ -157,7 +197,6 @@ func scenarioModule(prefix string, scs []*Scenario) (*emit.Module, error) {
 			}
 		}
 	}
-	return mod, mod.Write()
 }
 
 // ScenarioWorker judges every scenario of the shard with model and real generator (in-process, isolated), then
